@@ -58,7 +58,7 @@ pub struct ViolationRec {
     pub path: Vec<usize>,
 }
 
-#[derive(Default)]
+#[derive(Default, Clone)]
 pub struct Report {
     pub transitions: u64,
     pub traces: u64,
@@ -243,31 +243,82 @@ fn dfs<M: Model>(m: &M, s: &M::S, depth: usize, max_depth: usize, ctx: &mut Ctx)
     }
 }
 
-/// Explore all (seed, first action) work items owned by this shard.
+/// Explore the work items owned by this shard. A work item is (seed, first action) when the
+/// depth bound is 1 and (seed, first action, second action) otherwise; in the second case the
+/// first step is executed by every shard that owns one of its children, but it is counted and
+/// judged only by the shard that owns the first-level item (the others restore their report).
 pub fn explore<M: Model>(m: &M, ctx: &mut Ctx) {
     let seeds = m.seeds(ctx);
     let mut item = 0usize;
+    let mut item2 = 0usize;
     for (si, (name, s)) in seeds.iter().enumerate() {
         let max_depth = m.depth(si);
         let acts = m.actions(s, 0);
         for (i, a) in acts.iter().enumerate() {
-            let mine = ctx.mine(item);
+            let owner = ctx.mine(item);
             item += 1;
-            if !mine {
+            if max_depth < 2 {
+                if !owner {
+                    continue;
+                }
+                let mut s2 = s.clone();
+                ctx.path = vec![si, i];
+                ctx.cur_trail = vec![format!("seed {name}"), format!("{a:?}")];
+                ctx.report.transitions += 1;
+                ctx.report.max_depth = ctx.report.max_depth.max(1);
+                if ctx.report.samples.len() < 2 && item % 7 == 1 {
+                    let t = ctx.cur_trail.clone();
+                    ctx.sample(json!({"trail": t}));
+                }
+                match m.step(&mut s2, a, ctx) {
+                    Step::Continue => dfs(m, &s2, 1, max_depth, ctx),
+                    Step::Stop => ctx.report.traces += 1,
+                }
                 continue;
             }
+            // two-level sharding
+            let saved = if owner { None } else { Some(ctx.report.clone()) };
             let mut s2 = s.clone();
             ctx.path = vec![si, i];
             ctx.cur_trail = vec![format!("seed {name}"), format!("{a:?}")];
             ctx.report.transitions += 1;
             ctx.report.max_depth = ctx.report.max_depth.max(1);
-            if ctx.report.samples.len() < 2 && item % 7 == 1 {
+            if owner && ctx.report.samples.len() < 2 && item % 7 == 1 {
                 let t = ctx.cur_trail.clone();
                 ctx.sample(json!({"trail": t}));
             }
-            match m.step(&mut s2, a, ctx) {
-                Step::Continue => dfs(m, &s2, 1, max_depth, ctx),
-                Step::Stop => ctx.report.traces += 1,
+            let st = m.step(&mut s2, a, ctx);
+            if let Some(r) = saved {
+                ctx.report = r;
+            }
+            match st {
+                Step::Stop => {
+                    if owner {
+                        ctx.report.traces += 1;
+                    }
+                }
+                Step::Continue => {
+                    let acts2 = m.actions(&s2, 1);
+                    if acts2.is_empty() && owner {
+                        ctx.report.traces += 1;
+                    }
+                    for (j, b) in acts2.iter().enumerate() {
+                        let mine = ctx.mine(item2);
+                        item2 += 1;
+                        if !mine {
+                            continue;
+                        }
+                        let mut s3 = s2.clone();
+                        ctx.path = vec![si, i, j];
+                        ctx.cur_trail = vec![format!("seed {name}"), format!("{a:?}"), format!("{b:?}")];
+                        ctx.report.transitions += 1;
+                        ctx.report.max_depth = ctx.report.max_depth.max(2);
+                        match m.step(&mut s3, b, ctx) {
+                            Step::Continue => dfs(m, &s3, 2, max_depth, ctx),
+                            Step::Stop => ctx.report.traces += 1,
+                        }
+                    }
+                }
             }
         }
     }
